@@ -278,14 +278,23 @@ register(Unit('junctors.Relations.__init__', 'concepts/junctors.py', 'Relations.
 # ---- Relations.tostring / __str__: printing is defined for every context, including when there is nothing to list
 
 def _tostring_unit():
+    from z3 import IntVal, Not, And
+
     def make():
         def harness(path):
             n = Int('len(self)')
             path.assume(n >= 0)
 
+            from z3 import Function, BoolSort, IntSort, If
+            isorth = Function('is_orthogonal', IntSort(), BoolSort())      # entry t is an Orthogonal
+
             def rel(t):
-                return ObjV('Relation', {'left': ObjV('Label', {}, name='left'), 'right': ObjV('Label', {}, name='right'),
-                                         'kind': StrV(None), '__class__': ObjV('class', {}, name='cls[%s]' % t)}, name='r[%s]' % t)
+                cls = ObjV('class', {}, name='cls[%s]' % t)
+                cls.ident = If(isorth(t), 0, 1)          # identity of the class object: Orthogonal or another relation class
+                r = ObjV('Relation', {'left': ObjV('Label', {}, name='left'), 'right': ObjV('Label', {}, name='right'),
+                                      'kind': StrV(None), '__class__': cls}, name='r[%s]' % t)
+                r.pos = t
+                return r
             this = SeqV(rel, n, 'self')
             excl = path.fresh_bool('exclude_orthogonal')
 
@@ -297,12 +306,35 @@ def _tostring_unit():
                 # builtin max: ValueError on an empty iterable unless a default is given
                 p.oblige('pre@max/non-empty-or-default', 'pre@call', Or(ln > 0, BoolVal('default' in kw)))
                 return IntV(p.fresh_int('width'))
+            orth = ObjV('class', {}, name='Orthogonal')
+            orth.ident = IntVal(0)
+            joined = []
+
+            def str_join(p, sep, it):
+                joined.append((sep, it))
+                return StrV(None)
             g = dict(lib.builtins(), max=FuncV('max', max_), str=FuncV('str', lambda p, a, k: StrV(None)),
-                     len=FuncV('len', lambda p, a, k: IntV(p.fresh_int('len'))), Orthogonal=ObjV('class', {}, name='Orthogonal'))
+                     len=FuncV('len', lambda p, a, k: IntV(p.fresh_int('len'))), Orthogonal=orth)
 
             def finish(path, env_, outcome):
                 path.oblige('post/defined-for-every-list', 'post', BoolVal(outcome[0] == 'return' and isinstance(outcome[1], StrV)))
-            return {'self': this, 'exclude_orthogonal': BoolV(excl)}, {'globals': g}, finish
+                # one line per listed entry, in order: every entry, or with exclude_orthogonal exactly the non-orthogonal ones
+                from pyvc.engine import FilterV
+                ok = len(joined) == 1 and getattr(joined[0][0], 'value', None) == '\n'
+                path.oblige('post/lines-joined-by-newline', 'post', BoolVal(ok))
+                if ok:
+                    it = joined[0][1]
+                    t = path.fresh_int('t')
+                    if isinstance(it, FilterV):
+                        path.oblige('post/exclude_orthogonal: a filter of the entries', 'post', And(excl, it.base.length == n))
+                        n0 = len(path.pc)
+                        path.pc.append(And(0 <= t, t < n))
+                        path.oblige('post/exclude_orthogonal: kept iff not Orthogonal', 'post', it.cond(t) == Not(isorth(t)))
+                        del path.pc[n0:]
+                    else:
+                        path.oblige('post/every-entry-listed', 'post',
+                                    And(Not(excl), it.length == n) if isinstance(it, (IterV, SeqV)) else BoolVal(False))
+            return {'self': this, 'exclude_orthogonal': BoolV(excl)}, {'globals': g, 'str_join': str_join}, finish
         return bits.axioms(), harness
     return make
 
